@@ -9,7 +9,7 @@ the writer returned normally, the projection (c10_io.c `project`, the single map
 spec state) equals the abstract module the specification predicts, and every text equals the first one byte for
 byte.  TLC-built executable programs (MIRProg.tla) go through the same histories and both copies are linked and
 run: observations must equal the specification's.  This file also holds what C11 (c11.py) shares."""
-import json, os, re, subprocess, sys, struct, copy, collections, fractions, decimal, hashlib, random
+import json, os, re, subprocess, sys, struct, copy, collections, fractions, decimal, hashlib, random, time
 import vlib, progs, mirlib
 from vlib import Check, run_tlc, tlc_ok, MachineryError
 
@@ -941,3 +941,340 @@ def prog_cases(exe, cases):
             b0, _ = progs.cells_bytes(c["buf0"])
             out.append({"M": M, "NF": M, "exec": {"buf0": b0.hex(), "obs": obs, "nans": nans}, "prog": c})
     return out, skipped
+
+
+# ------------------------------------------------------------------------------------------------ generation
+
+def gen_histories(mode, depth):
+    r = run_tlc("MIRText", "MIRText_mc.cfg", workers=2, heap="2g", env={"C10_MODE": mode, "C10_DEPTH": depth}, timeout=600)
+    tlc_ok(r, "MIRText")
+    if r.violation or not r.outs:
+        raise MachineryError("MIRText: %s" % (r.violation or "no histories"))
+    return r.outs, r
+
+
+def hist_name(h):
+    return ">".join(s["a"][0] + (s["via"][0] if s["a"] in ("write", "read") else "") + str(s["x"]) for s in h["h"]) + ":" + h["ctxs"][0]["org"] + ":" + h["ctxs"][0]["num"]
+
+
+def gen_modules(cfg, n=None, workers=4, seed=1, timeout=1500, env=None):
+    """modules from spec/MIRModule.tla: breadth-first (n None) or by simulation (n modules).  Returns (cases, tlc result)"""
+    if n is None:
+        r = run_tlc("MIRModule", cfg, workers=workers, heap="6g", timeout=timeout, env=env)
+    else:
+        per = max(1, (n + workers - 1) // workers)
+        r = run_tlc("MIRModule", cfg, workers=workers, heap="6g", simulate=per, depth=6000, seed_=seed, timeout=timeout, env=env)
+    tlc_ok(r, "MIRModule " + cfg)
+    if r.violation:
+        raise MachineryError("MIRModule %s: invariant %s violated" % (cfg, r.violation))
+    cases = [{"M": norm_mods(o["mods"]), "NF": norm_mods(o["textnf"])} for o in r.outs]
+    return cases, r
+
+
+def text_expressible(M):
+    """can the abstract module be written as MIR text at all (the Python rendering path)"""
+    for _, _, o in all_ops(M):
+        if o["k"] == "str" and o["b"] and not o["b"].endswith("00"):
+            return False
+        if o["k"] == "mem" and o["t"] == "undef":
+            return False
+        if o["k"] in ("f", "d", "ld") and not fp_finite(o["k"], o["v"]):
+            return False
+    for _, it in all_items(M):
+        if it["k"] == "data" and it["t"] in ("f", "d", "ld"):
+            sz = TYSIZE[it["t"]]
+            raw = bytes.fromhex(it["hex"])
+            for i in range(0, len(raw), sz):
+                if not fp_finite(it["t"], int.from_bytes(raw[i:i + sz], "little").to_bytes(sz, "big").hex()):
+                    return False
+    return True
+
+
+def fp_finite(kind, hexbits):
+    v = int(hexbits, 16)
+    if kind == "f":
+        return (v >> 23) & 0xff != 0xff
+    if kind == "d":
+        return (v >> 52) & 0x7ff != 0x7ff
+    e, m = (v >> 64) & 0x7fff, v & ((1 << 64) - 1)
+    if e == 0x7fff:
+        return False
+    return (m >> 63) == (1 if e else 0) or (e == 0)          # normal numbers have the integer bit, denormals do not
+
+
+def coverage_of(cases, cov):
+    for c in cases:
+        for _, it in all_items(c["M"]):
+            cov["item_" + it["k"]] += 1
+            if it["k"] == "data":
+                cov["data_" + it["t"]] += 1
+            if it["k"] == "func":
+                for a in it["args"]:
+                    cov["arg_" + a["t"]] += 1
+                if it["va"]:
+                    cov["func_vararg"] += 1
+                if it["globals"]:
+                    cov["func_global_reg"] += 1
+                for I in it["insns"]:
+                    cov["op_" + I["op"]] += 1
+                    if I["op"] != "label":
+                        for o in I["ops"]:
+                            cov["opnd_" + o["k"]] += 1
+                            if o["k"] == "mem":
+                                cov["mem_" + o["t"]] += 1
+                                if o["alias"] or o["nonalias"]:
+                                    cov["mem_alias"] += 1
+
+
+# ------------------------------------------------------------------------------------------------ the check
+
+PROBE_HIST = "o1>s1>o2>s2"
+
+
+def pick_hist(hists, org, num, want=None):
+    """a history by shape"""
+    for h in hists:
+        if h["ctxs"][0]["org"] == org and h["ctxs"][0]["num"] == num and (want is None or hist_name(h).split(":")[0] == want):
+            return h
+    raise MachineryError("no history %s %s %s" % (org, num, want))
+
+
+TEXT_PROBES = {
+    # feature: (finding key, origin numbering, matcher over the failures of the probe)
+    "expr": ("text:expr_item_output", "canon", lambda fs: fs[0].stage == "output"),
+    "pdata": ("text:data_p_rejected", "canon", lambda fs: fs[0].stage in ("scan", "pyscan") and "wrong_data_clause" in fs[0].sig),
+    "uint_high": ("text:uint_imm_high_bit", "canon", lambda fs: all(f.key() == "text_fixpoint:differs" and b"18446744073709551615" in f.text.encode() for f in fs)),
+    "str_nonul": ("text:str_without_nul", "canon", lambda fs: all((f.stage.startswith("proj_") and f.sig.endswith("ops.b")) or f.stage == "text_fixpoint" for f in fs)),
+    "undef_mem": ("text:undef_mem_type", "canon", lambda fs: fs[0].stage in ("scan", "pyscan") and "Unknown_type_undef" in fs[0].sig),
+    "label_order": ("text:label_renumbered", "rev", lambda fs: all(f.key() == "text_fixpoint:labels_renamed" for f in fs)),
+}
+
+
+def run_probes(ck, exe, hists, probes, mode_prefix):
+    """returns the set of features that are defective on this tree; reports each under its key"""
+    P = probe_modules()
+    defective = set()
+    for feat, (key, num, match) in probes.items():
+        M = P[feat]
+        case = {"M": M, "NF": text_nf(M)}
+        hs = [pick_hist(hists, "api", num, PROBE_HIST)]
+        if num == "canon" and text_expressible(M):
+            hs.append(pick_hist(hists, "pytext", "canon", PROBE_HIST))
+        allf = []
+        for h in hs:
+            (fails, _), = replay_cases(exe, [(case, h)], maxpar=1)
+            allf += fails
+        ck.add("probes")
+        if not allf:
+            continue
+        defective.add(feat)
+        k = key if match(allf) else "probe:%s:%s" % (feat, allf[0].key())
+        ck.violation(k, "probe %s: %s" % (feat, "; ".join(f.text for f in allf[:3])), {"M": M, "NF": case["NF"], "hist": hs[0]})
+    return defective
+
+
+def case_json(case, hist):
+    d = {"M": case["M"], "NF": case["NF"], "hist": hist}
+    if case.get("prog"):
+        d["prog"] = case["prog"]
+    return d
+
+
+def recheck(exe, pairs, res, idx):
+    """rule 5: a failing case is run once more, alone, before it is reported"""
+    (f2, r2), = replay_cases(exe, [pairs[idx]], maxpar=1)
+    return f2
+
+
+def assign(cases, hists, rng, want_orgs):
+    """(case, history) pairs: every case gets one history per origin in want_orgs that applies to it"""
+    by = collections.defaultdict(list)
+    for h in hists:
+        by[(h["ctxs"][0]["org"], h["ctxs"][0]["num"])].append(h)
+    pairs = []
+    for c in cases:
+        for org, num in want_orgs:
+            if org == "pytext" and not text_expressible(c["M"]):
+                continue
+            hs = by[(org, num)]
+            if c.get("exec"):
+                hs = [h for h in hs if any(s["a"] == "exec" for s in h["h"])] or hs
+            pairs.append((c, rng.choice(hs)))
+    return pairs
+
+
+def run(tier):
+    ck = Check(PROP, tier, "model_checking")
+    rng = random.Random(vlib.seed())
+    quick = tier == "quick"
+    exe = build_exe("plain")
+    exe_asan = None if quick else build_exe("asan")
+    hists, hr = gen_histories("text", 4 if quick else 5)
+    states, trans = hr.distinct, hr.states
+    cov = collections.Counter()
+
+    defective = run_probes(ck, exe_asan or exe, hists, TEXT_PROBES, "text")
+    # ---- modules (the generators run side by side)
+    from concurrent.futures import ThreadPoolExecutor
+    t0 = time.time()
+    nwk = 6 if quick else vlib.NCPU
+    gens = {
+        "mc": lambda: gen_modules("MIRModule_mc.cfg", workers=2),
+        "sim": lambda: gen_modules("MIRModule_sim.cfg", n=600 if quick else 30000, workers=nwk, seed=vlib.seed()),
+        "prog": lambda: progs.generate(32 if quick else 320, seed=vlib.seed() + 1000, workers=nwk, cfg="MIRProg_exec.cfg"),
+    }
+    if not quick:
+        gens["mci"] = lambda: gen_modules("MIRModule_mci.cfg", workers=vlib.NCPU, timeout=2400)
+    with ThreadPoolExecutor(max_workers=len(gens) if quick else 2) as ex:
+        futs = {k: ex.submit(f) for k, f in gens.items()}
+        got = {k: f.result() for k, f in futs.items()}
+    groups = []
+    c_mc, r = got["mc"]
+    states += r.distinct; trans += r.states
+    groups.append(("items_exhaustive", c_mc, True))
+    c_sim, r = got["sim"]
+    states += r.states; trans += r.states
+    groups.append(("simulated", c_sim, False))
+    if not quick:
+        c_mci, r = got["mci"]
+        states += r.distinct; trans += r.states
+        groups.append(("insns_exhaustive", c_mci, False))
+    pc, rr = got["prog"]
+    states += rr.states; trans += rr.states
+    c_prog, skipped = prog_cases(exe, pc)
+    ck.setc("programs_executable", len(c_prog)); ck.setc("programs_discarded_undefined", len(pc) - len(c_prog) - skipped)
+    groups.append(("programs", c_prog, True))
+    gen_wall = time.time() - t0
+
+    # ---- replay
+    counts = collections.Counter()
+    orgs_all = [("api", "canon"), ("pytext", "canon")]
+    nrep = 0
+    text_by_case = {}
+    for gname, cases, both in groups:
+        coverage_of(cases, cov)
+        cases = [strip_features(c, defective, counts) for c in cases]
+        want = list(orgs_all) if (both or quick) else [("api", "canon")]
+        pairs = []
+        for i, c in enumerate(cases):
+            w = list(want)
+            if not both and not quick and i % 4 == 0:
+                w.append(("pytext", "canon"))
+            if "label_order" not in defective and i % 8 == 0:
+                w.append(("api", "rev"))
+            pairs += assign([c], hists, rng, w)
+        use = exe
+        if exe_asan is not None and gname in ("items_exhaustive", "programs"):
+            use = exe_asan
+        res = replay_cases(use, pairs, maxpar=vlib.NCPU)
+        if exe_asan is not None and gname == "simulated":       # a quarter of the bulk also under ASan/UBSan
+            sub = pairs[::4]
+            res_a = replay_cases(exe_asan, sub, maxpar=vlib.NCPU)
+            pairs, res = pairs + sub, res + res_a
+            ck.add("replayed_under_asan", len(sub))
+        nrep += len(pairs)
+        ck.add("modules_" + gname, len(cases)); ck.add("replays_" + gname, len(pairs))
+        nbad = 0
+        first_text = {}
+        for idx, ((case, h), (fails, rs)) in enumerate(zip(pairs, res)):
+            # cross-path: the first text of the API-built context equals the first text of the context scanned from
+            # the Python rendering (both number labels in order of appearance)
+            if not fails and rs["texts"] and h["ctxs"][0]["num"] == "canon" and h["h"][0]["a"] == "output":
+                kid = id(case)
+                t = rs["texts"].get(0)
+                if t is not None:
+                    if kid in first_text and first_text[kid][0] != t:
+                        fails = [Fail("cross_path", "text_differs", "text of the API-built context differs from the text of the context scanned from rendered text (%s / %s)"
+                                      % (first_text[kid][1], h["ctxs"][0]["org"]))]
+                    first_text.setdefault(kid, (t, h["ctxs"][0]["org"]))
+            if fails:
+                nbad += 1
+                if nbad <= 40 and fails[0].stage != "cross_path":
+                    fails = recheck(use, pairs, res, idx)
+                for f in fails[:3]:
+                    ck.violation(f.key(), "%s, history %s: %s" % (gname, hist_name(h), f.text), case_json(case, h))
+        vlib.log("  %s: %d modules, %d histories replayed, %d with mismatches" % (gname, len(cases), len(pairs), nbad))
+    for k, v in counts.items():
+        ck.setc(k, v)
+    ck.setc("states", states); ck.setc("transitions", trans)
+    ck.setc("traces_validated_against_impl", nrep); ck.setc("histories", len(hists))
+    ck.setc("defective_features", sorted(defective))
+    ck.setc("vocabulary", {k: v for k, v in sorted(cov.items())})
+    ops = [k for k in cov if k.startswith("op_")]
+    ck.setc("opcodes_covered", len(ops))
+    kinds = {"item_" + k for k in ("import", "export", "forward", "proto", "func", "bss", "data", "ref", "lref", "expr")}
+    missing = sorted(kinds - set(cov))
+    if missing or (not quick and len(ops) < 170):
+        raise MachineryError("vocabulary not covered: %s, %d opcodes" % (missing, len(ops)))
+    ck.setc("samples", [hist_name(h) for h in hists[:: max(1, len(hists) // 4)][:4]])
+    ck.setc("rule", "every module built by spec/MIRModule.tla (exhaustive tiny bounds + simulation) and every MIRProg program is built through the API "
+                    "and from text rendered independently, then a MIRText history (output/scan/execute, depth %d) is replayed; after every step the "
+                    "projection must equal the abstract module (its text normal form after a scan), all texts must be identical bytes, programs must "
+                    "produce the specification's observations" % (4 if quick else 5))
+    ck.setc("generation_wall_s", round(gen_wall, 1))
+    ck.assumptions += ["finite floating-point immediates; bss lengths below 2^63; item, register and alias names from disjoint pools",
+                       "label numbers are part of the text: API-built contexts number labels in order of appearance unless the history says otherwise"]
+    return ck.finish()
+
+
+def replay_file(prop, path, exes):
+    """re-run exactly the recorded (module, history) against the current tree (no evidence is written)"""
+    rec = json.load(open(path))
+    d = rec["case"]
+    case = {"M": d["M"], "NF": d["NF"]}
+    if d.get("prog"):
+        pcs, _ = prog_cases(exes[0], [d["prog"]])
+        if not pcs:
+            print("replay: the program text is not accepted any more")
+            print("VIOLATION property=%s replay=%s" % (prop, path))
+            return 1
+        case = pcs[0]
+    bad = []
+    for e in exes:
+        (fails, _), = replay_cases(e, [(case, d["hist"])], maxpar=1)
+        bad += fails
+    if bad:
+        for f in bad[:5]:
+            print("replay: still failing: %s: %s" % (f.key(), f.text[:400]))
+        known = vlib.Findings().is_known(prop, rec.get("key", ""))
+        if known:
+            print("KNOWN-FINDING: property=%s %s [%s]" % (prop, vlib.Findings().known[(prop, rec["key"])], rec["key"]))
+            return 0
+        print("VIOLATION property=%s replay=%s" % (prop, path))
+        return 1
+    print("replay: passes")
+    return 0
+
+
+def replay(path):
+    return replay_file(PROP, path, [build_exe("plain"), build_exe("asan")])
+
+
+def selftest():
+    """binding demonstration: a correct round trip is accepted; a corrupted expectation, a corrupted text and a
+    projection that hides a difference are objected to"""
+    exe = build_exe("plain")
+    hists, _ = gen_histories("text", 4)
+    h = pick_hist(hists, "api", "canon", PROBE_HIST)
+    f = _func("f", [_ins("mov", _R("x"), _I(5)), _lab(1), _ins("add", _R("x"), _R("x"), _mem("i32", 8, "x", "", 1, "al", "")),
+                    _ins("bt", {"k": "lab", "n": 1}, _R("x")), _ins("ret", _R("x"))])
+    M = _mod([{"k": "import", "name": "ext"}, {"k": "data", "name": "d1", "t": "i16", "nel": 2, "hex": "ffff0100", "via": "data"}, f])
+    case = {"M": M, "NF": text_nf(M)}
+    (f1, _), = replay_cases(exe, [(case, h)], maxpar=1)
+    ok1 = not f1
+    bad = copy.deepcopy(case)
+    bad["NF"]["mods"][0]["items"][2]["insns"][0]["ops"][1]["v"] = hx(6)          # expectation after the scan corrupted
+    (f2, _), = replay_cases(exe, [(bad, h)], maxpar=1)
+    ok2 = any(x.stage == "proj_scan" for x in f2)
+    bad2 = copy.deepcopy(case)
+    bad2["M"]["mods"][0]["items"][1]["hex"] = "feff0100"                          # what is built differs from what is expected later
+    bad2["NF"] = text_nf(M)
+    (f3, _), = replay_cases(exe, [(bad2, h)], maxpar=1)
+    ok3 = any(x.stage.startswith("proj_") for x in f3)
+    # identity test of the projection dumper on TLC-built modules: build from abstract, project, compare
+    cases, _ = gen_modules("MIRModule_mc.cfg", workers=2)
+    res = replay_cases(exe, [(c, pick_hist(hists, "api", "canon", "o1>o1>o1>o1")) for c in cases[:120] if not FEATURES["expr"][0](c["M"])], maxpar=4)
+    ok4 = all(not any(x.stage == "proj_api" for x in fl) for fl, _ in res)
+    print("selftest C10: round trip accepted=%s corrupted expectation rejected=%s corrupted build rejected=%s projection identity on %d TLC modules=%s"
+          % (ok1, ok2, ok3, len(res), ok4))
+    return 0 if ok1 and ok2 and ok3 and ok4 else 1
